@@ -35,6 +35,7 @@ type solveCfg struct {
 	lemmas   []*Lemma
 	known    map[string]bool // obligation keys listed as known findings: expected to fail, short time-out
 	siteVacuity bool         // thorough: also ask whether the hypotheses of each proved obligation are satisfiable
+	retried     bool         // this is the second attempt (longer time-out) of an obligation whose solvers all timed out
 }
 
 func runSolver(sp solverSpec, file string, timeoutS int) (verdict, output string, ms int64) {
@@ -136,7 +137,11 @@ func solveOne(o *Obligation, cfg solveCfg) {
 				o.SMT = sub.SMT
 				return
 			}
-			os.Remove(sub.SMT)
+			if os.Getenv("JV_KEEP_SUB") == "" {
+				os.Remove(sub.SMT)
+			} else {
+				fmt.Fprintf(os.Stderr, "sub %s %dms %s\n", sub.SMT, sub.Ms, sub.Solver)
+			}
 			names = append(names, sub.Solver)
 			hyps = append(hyps, g)
 		}
@@ -146,6 +151,17 @@ func solveOne(o *Obligation, cfg solveCfg) {
 	}
 	hyps := o.Hyps
 	if !o.ExpectSat {
+		// a goal that is literally one of the hypotheses (after the same conjunct splitting) needs no solver: quantified
+		// facts carried unchanged across a statement are otherwise a matching problem the solvers may fail at
+		gs := alphaKey(o.Goal)
+		for _, h := range o.Hyps {
+			for _, part := range splitGoal(h) {
+				if part == o.Goal || alphaKey(part) == gs {
+					o.Status, o.Solver = "proved", "simplifier"
+					return
+				}
+			}
+		}
 		hyps = append(append([]*Term(nil), lemmasFor(cfg.lemmas, o)...), hyps...)
 	}
 	src := EmitSMT(hyps, o.Goal, true)
@@ -244,6 +260,22 @@ func solveOne(o *Obligation, cfg solveCfg) {
 		return
 	}
 	o.Status = "unknown"
+	// every solver ran out of (wall-clock) time: on a loaded machine that says little; one retry with three times the
+	// budget before the obligation is reported as undecided. Solvers that answered `unknown` are not asked again.
+	if !cfg.known[o.Key] && !cfg.retried && strings.Contains(o.Output, "timeout") {
+		c2 := cfg
+		c2.retried = true
+		c2.timeoutS = 3 * tmo
+		first := o.Output
+		o.Output = ""
+		if _, err := os.Stat(o.SMT); err != nil {
+			os.WriteFile(o.SMT, []byte(hdr+src), 0o644)
+		}
+		solveOne(o, c2)
+		if o.Status != "proved" && o.Status != "refuted" {
+			o.Output = first + "retry with " + fmt.Sprint(c2.timeoutS) + "s: " + o.Output
+		}
+	}
 }
 
 func firstLines(s string, n int) string {
